@@ -366,34 +366,8 @@ theorem C02_seller_gets_rest (w w' : World) (sender : Addr) (isAdmin : Bool) (fu
         w.bank.bal (sellerOf w.v w.m) price.denom + (price.amount - networkFee w.f isAdmin price) := by
   obtain ⟨price, hsel, hl⟩ := C02_recipient_ledger w w' sender isAdmin funds allowed hs h
   refine ⟨price, hsel, ?_⟩
-  rw [hl _ price.denom h1 h2, inflow_append]
-  have hfee : inflow (sellerOf w.v w.m) price.denom (feeMsgs w.v w.f price (networkFee w.f isAdmin price)) = 0 := by
-    apply inflow_zero
-    intro x hx hd
-    unfold feeMsgs at hx
-    split at hx
-    · cases hx
-    · have hdev : devOf w.v w.f = none ∨ devOf w.v w.f = some w.f.devAddr := by
-        unfold devOf; cases w.v.family <;> simp
-      rcases hdev with hn | hsome
-      · rw [hn, distribute_none] at hx
-        simp only [List.mem_cons, List.not_mem_nil, or_false] at hx
-        rcases hx with e | e <;> subst e <;> simp [msgDest] at hd
-        · exact h3 hd.symm
-        · exact h4 hd.symm
-      · rw [hsome, distribute_some] at hx
-        simp only [List.mem_cons, List.not_mem_nil, or_false] at hx
-        rcases hx with e | e | e <;> subst e <;> simp [msgDest] at hd
-        · exact h5 hd.symm
-        · exact h3 hd.symm
-        · exact h4 hd.symm
-  rw [hfee]
-  generalize networkFee w.f isAdmin price = fee
-  unfold sellerMsgs
-  by_cases h0 : price.amount - fee = 0
-  · simp [h0, inflow]
-  · simp [h0, inflow, msgDest, Msg.denom, Msg.amount]
-
+  rw [hl _ price.denom h1 h2, inflow_append, feeMsgs_inflow_zero _ _ _ _ _ _ h3 h4 h5, sellerMsgs_inflow]
+  omega
 /-- "no coins are created, lost or stranded": over any duplicate-free account list containing the parties, the sum of
 the balances plus the amount ever burned is unchanged by a mint, in every denom; a sale burns nothing -/
 theorem C02_conservation (w w' : World) (sender : Addr) (isAdmin : Bool) (funds : List Coin) (allowed : Bool)
